@@ -387,7 +387,7 @@ GENOMIC_OPS_I = [(2, "ivals"), (2, "mask"), (3, "pileup"), (2, "pileup_sum"), (2
                  (2, "multi_two_sources"), (2, "location_windows"), (1, "pileup_arith")]
 GENOMIC_OPS_B = [(3, "track"), (2, "track_sum"), (2, "track_hist"), (2, "track_at_windows"),
                  (2, "track_at_stream_windows"), (2, "track_mean_cols"), (1, "track_mean_rows"), (1, "track_arith"),
-                 (1, "track_gt"), (1, "from_track"), (1, "multi_track_tuple")]
+                 (1, "track_gt"), (1, "from_track"), (1, "multi_track_tuple"), (2, "track_sum_rows"), (1, "track_max_rows")]
 
 
 # constant on either side of commutative and non-commutative operators, explicit ufunc calls, unary minus
@@ -451,18 +451,21 @@ def build_genomic(ctx, tape, cap, source):
             params["window_size"] = 1 + tape.draw(8, "g.wsize")
     # secondary tables
     sec_rows, sec_kind, sec_stranded = None, None, False
-    if op in ("pileup_at_windows", "track_at_windows", "track_at_stream_windows", "track_mean_rows"):
+    if op in ("pileup_at_windows", "track_at_windows", "track_at_stream_windows", "track_mean_rows", "track_sum_rows",
+              "track_max_rows"):
         sec_stranded = tape.boolean("w.stranded", 1, 3)
         sec_rows = gen_grouped_rows(tape, 6, names, "w", allow_empty_groups=True, sizes=sizes)
         sec_rows = [(c, s, min(e, chrom_sizes[c])) for c, s, e in sec_rows]
     elif op == "track_mean_cols":
         sec_stranded = tape.boolean("w.stranded", 1, 3)
         w = 1 + tape.draw(min(sizes), "w.width")
+        unequal = w >= 2 and tape.boolean("w.unequal", 1, 2)     # rows of different lengths: column counts differ
         sec_rows = []
         for name, size in zip(names, sizes):
             while len(sec_rows) < 6 and tape.more("w.more", 2, 3):
-                s0 = tape.draw(size - w + 1, "w.start")
-                sec_rows.append((name, s0, s0 + w))
+                wi = w - (tape.draw(min(w, 3), "w.shorter") if unequal else 0)
+                s0 = tape.draw(size - wi + 1, "w.start")
+                sec_rows.append((name, s0, s0 + wi))
         if not sec_rows:
             sec_rows = [(names[0], 0, w)]
         sec_rows.sort(key=lambda r: (names.index(r[0]), r[1]))
@@ -568,13 +571,17 @@ def build_genomic(ctx, tape, cap, source):
             return plain(fin(tr.sum()))
         if op == "track_hist":
             return S.dense(fin(np.histogram(tr, bins=params["bins"])))
-        if op in ("track_at_windows", "track_mean_cols", "track_mean_rows"):
+        if op in ("track_at_windows", "track_mean_cols", "track_mean_rows", "track_sum_rows", "track_max_rows"):
             w = genome.get_intervals(secondary(), stranded=sec_stranded)
             x = tr[w]
             if op == "track_mean_cols":
                 x = x.mean(axis=0)
             elif op == "track_mean_rows":
                 x = x.mean(axis=-1)
+            elif op == "track_sum_rows":
+                x = x.sum(axis=-1)
+            elif op == "track_max_rows":
+                x = x.max(axis=-1)
             return S.dense(fin(x))
         if op == "track_at_stream_windows":
             sec = S.MemSource(secondary(), S.cuts_of_mask(sec_mask, len(sec_rows)), getattr(src, "pulls", None))
